@@ -20,18 +20,20 @@ Definition wk (b : bstate) : Prop :=
 (* b' is b after some reads: less input, allocation bounded by what was available *)
 Definition wle (b b' : bstate) : Prop :=
   b_fuel b' = b_fuel b /\ avail_ok b' /\ (length (b_in b') <= length (b_in b))%nat /\
-  b_alloc b' <= N.max (b_alloc b) (b_avail b + read_chunk_size).
+  b_alloc b' <= N.max (b_alloc b) (b_avail b + read_chunk_size) /\ b_ioerr b' = b_ioerr b.
 
 Lemma wle_refl b : avail_ok b -> wle b b.
 Proof. unfold wle. intros H. repeat split; auto; lia. Qed.
 Lemma wle_trans b b1 b2 : avail_ok b -> wle b b1 -> wle b1 b2 -> wle b b2.
 Proof.
-  unfold wle, avail_ok. intros A (F1 & A1 & L1 & M1) (F2 & A2 & L2 & M2).
-  split; [congruence|]. split; [exact A2|]. split; [lia|]. lia.
+  unfold wle, avail_ok. intros A (F1 & A1 & L1 & M1 & I1) (F2 & A2 & L2 & M2 & I2).
+  split; [congruence|]. split; [exact A2|]. split; [lia|]. split; [lia|congruence].
 Qed.
+Lemma wle_ioerr b b' : wle b b' -> b_ioerr b' = b_ioerr b.
+Proof. intros (_ & _ & _ & _ & H). exact H. Qed.
 Lemma wk_wle b b' : wk b -> wle b b' -> wk b'.
 Proof.
-  unfold wk, wle, avail_ok. intros (A & F & M) (F1 & A1 & L1 & M1).
+  unfold wk, wle, avail_ok. intros (A & F & M) (F1 & A1 & L1 & M1 & _).
   split; [exact A1|]. rewrite F1. split; [lia|]. lia.
 Qed.
 
@@ -71,7 +73,7 @@ Qed.
 Lemma adv_wle k b b' : avail_ok b -> adv k b b' -> wle b b'.
 Proof.
   unfold wle, avail_ok. intros A []. split; [assumption|].
-  rewrite adv_in0, skipn_length. split; [lia|]. split; [lia|]. lia.
+  rewrite adv_in0, skipn_length. split; [lia|]. split; [lia|]. split; [lia|assumption].
 Qed.
 (* two advances by the same amount end in the same place *)
 Lemma adv_same k b b1 b2 : adv k b b1 -> adv k b b2 ->
@@ -89,8 +91,8 @@ Qed.
 Lemma b_read_wle b : avail_ok b -> wle b (fst (b_read b)).
 Proof.
   unfold b_read, wle, avail_ok. intros A. destruct (b_in b) as [|c r] eqn:E.
-  - destruct (b_ioerr b); bsimpl; rewrite ?E; cbn [length]; repeat split; lia.
-  - bsimpl. rewrite ?E in *. cbn [length] in *. repeat split; lia.
+  - destruct (b_ioerr b) eqn:Ei; bsimpl; rewrite ?E; cbn [length]; repeat split; try lia; assumption.
+  - bsimpl. rewrite ?E in *. cbn [length] in *. repeat split; try lia; reflexivity.
 Qed.
 Lemma b_read_some b b' c : avail_ok b -> b_read b = (b', Ok (Some c)) -> adv 1 b b'.
 Proof.
@@ -126,10 +128,10 @@ Qed.
 
 Lemma b_readN_wle b n : avail_ok b -> wle b (fst (b_readN b n)).
 Proof.
-  unfold b_readN, wle, avail_ok. intros A. destruct (n =? 0) eqn:E0; [bsimpl; repeat split; lia|].
+  unfold b_readN, wle, avail_ok. intros A. destruct (n =? 0) eqn:E0; [bsimpl; repeat split; try lia; reflexivity|].
   destruct (n <=? b_avail b) eqn:E1; bsimpl.
-  - rewrite split_at_spec. bsimpl. rewrite skipn_length. repeat split; lia.
-  - cbn [length]. repeat split; lia.
+  - rewrite split_at_spec. bsimpl. rewrite skipn_length. repeat split; try lia; reflexivity.
+  - cbn [length]. repeat split; try lia; reflexivity.
 Qed.
 Lemma b_readN_ok b n b' bs : avail_ok b -> b_pos b < two64 -> b_readN b n = (b', Ok bs) ->
   adv n b b' /\ N.of_nat (length bs) = n.
@@ -149,10 +151,10 @@ Qed.
 
 Lemma b_skip_wle b n : avail_ok b -> wle b (fst (b_skip b n)).
 Proof.
-  unfold b_skip, wle, avail_ok. intros A. destruct (two63 <=? n); [bsimpl; repeat split; lia|].
+  unfold b_skip, wle, avail_ok. intros A. destruct (two63 <=? n); [bsimpl; repeat split; try lia; reflexivity|].
   destruct (n <=? b_avail b) eqn:E1; bsimpl.
-  - rewrite skipn_length. repeat split; lia.
-  - cbn [length]. repeat split; lia.
+  - rewrite skipn_length. repeat split; try lia; reflexivity.
+  - cbn [length]. repeat split; try lia; reflexivity.
 Qed.
 Lemma b_skip_ok b n b' u : avail_ok b -> b_skip b n = (b', Ok u) -> adv n b b' /\ n < two63.
 Proof.
